@@ -873,6 +873,21 @@ func StaleFieldStores(fi *FuncInfo, name string) []string {
 						out = append(out, fmt.Sprintf("%s = %s (%s)", types.ExprString(l), types.ExprString(s.Rhs[i]), pos(s)))
 					}
 				}
+				// x.F[i] = v with v a map, slice or pointer: every element must get an object of its own - a fresh
+				// expression (literal, make, &T{}, a call) or a variable declared in the same block as the store; a
+				// variable from an enclosing scope is one object shared by all the elements it is stored into
+				if ix, ok := l.(*ast.IndexExpr); ok && i < len(s.Rhs) {
+					if se, ok := ast.Unparen(ix.X).(*ast.SelectorExpr); ok && se.Sel.Name == name {
+						switch info.TypeOf(s.Rhs[i]).Underlying().(type) {
+						case *types.Map, *types.Slice, *types.Pointer:
+							if id, isId := ast.Unparen(s.Rhs[i]).(*ast.Ident); isId {
+								if obj := info.Uses[id]; obj != nil && !declaredInSameBlock(fi, obj, s) {
+									out = append(out, fmt.Sprintf("%s = %s: %s is declared outside the block of the store, all elements share it (%s)", types.ExprString(l), id.Name, id.Name, pos(s)))
+								}
+							}
+						}
+					}
+				}
 			}
 		case *ast.KeyValueExpr:
 			if id, ok := s.Key.(*ast.Ident); ok && id.Name == name {
@@ -1249,4 +1264,29 @@ func (p *Program) WhyReach(from, to string) []string {
 func isHTMLNode(t types.Type) bool {
 	n, ok := t.(*types.Named)
 	return ok && n.Obj().Pkg() != nil && n.Obj().Pkg().Path() == "golang.org/x/net/html" && n.Obj().Name() == "Node"
+}
+
+// declaredInSameBlock: obj is declared by a statement of the innermost block that contains stmt.
+func declaredInSameBlock(fi *FuncInfo, obj types.Object, stmt ast.Stmt) bool {
+	var blocks []*ast.BlockStmt
+	var found *ast.BlockStmt
+	ast.Inspect(fi.Decl.Body, func(n ast.Node) bool {
+		if found != nil {
+			return false
+		}
+		if b, ok := n.(*ast.BlockStmt); ok {
+			for _, st := range b.List {
+				if st == stmt {
+					found = b
+					return false
+				}
+			}
+			blocks = append(blocks, b)
+		}
+		return true
+	})
+	if found == nil {
+		return false
+	}
+	return found.Pos() <= obj.Pos() && obj.Pos() < found.End()
 }
